@@ -466,6 +466,40 @@ def run(case):
         elif not o2.ok or o2.value != exp2:
             return violated("after ra[%s], ra[%s] on the same object gave %s, the list of rows gives %s" % (short(idx), short(idx2), repr(o2) if not o2.ok else short(o2.value[1]), short(exp2[1])),
                             tags + ["second-question"], got=repr(o2) if not o2.ok else o2.value, expected=exp2)
+    # a three-step history: after the question(s) above, a selection w is DERIVED from the same (possibly still unread) object, and a question is put
+    # to w. What the earlier answers remembered about the object (a shortest row, a view object handed on unchanged) must not travel into w.
+    if case.get("derive") is not None:
+        rsd, csd, hasd, rs3, cs3, has3 = case["derive"]
+        try:
+            kd, cellsd = model.select_cells(lens, rsd, csd, hasd)
+        except model.Refused:
+            kd = None
+        if kd == "RA":
+            rows_w = model.cells_to_values(kd, cellsd, pyrows)
+            lens_w = [len(r) for r in rows_w]
+            idxd, idx3 = model.make_index(rsd, csd, hasd), model.make_index(rs3, cs3, has3)
+            CTX.tick("c02:derived-then-asked", any(lens_w))
+            w = attempt(lambda: ra[idxd])
+            if not w.ok or not isinstance(w.value, CTX.lib.RaggedArray):
+                return violated("after ra[%s], the selection ra[%s] of the same object gave %s, the list of rows gives %s" % (short(idx), short(idxd), repr(w), short(rows_w)), tags + ["derived-question"])
+            try:
+                k3, cells3 = model.select_cells(lens_w, rs3, cs3, has3)
+                exp3 = (k3, model.cells_to_values(k3, cells3, rows_w))
+            except model.Refused:
+                exp3 = None
+            o3 = attempt(lambda: observe(w.value[idx3]))
+            if exp3 is None:
+                CTX.tick("c02:derived-refusal")
+                if o3.ok and recv != "unsafe":
+                    return violated("after ra[%s], w = ra[%s] has the rows %s; w[%s] does not exist there but was answered: %s" % (
+                        short(idx), short(idxd), short(rows_w), short(idx3), short(o3.value[1])), tags + ["derived-question"], got=o3.value, expected="refusal")
+            elif not o3.ok or o3.value != exp3:
+                return violated("after ra[%s], w = ra[%s] has the rows %s; w[%s] gave %s, the list of rows gives %s" % (
+                    short(idx), short(idxd), short(rows_w), short(idx3), repr(o3) if not o3.ok else short(o3.value[1]), short(exp3[1])),
+                    tags + ["derived-question"], got=repr(o3) if not o3.ok else o3.value, expected=exp3)
+            wr = attempt(peek, w.value)
+            if not wr.ok or wr.value != rows_w:
+                return violated("after ra[%s] and a question to w = ra[%s], w reads %s, the list of rows gives %s" % (short(idx), short(idxd), repr(wr) if not wr.ok else short(wr.value), short(rows_w)), tags + ["derived-question"])
     # the same question again after the array has been read in full (which materialises an unmaterialised receiver in place): what the first
     # answer left behind on the object (a remembered view, offsets into the old buffer) must not show
     if sum(lens) <= 5000:
@@ -522,6 +556,16 @@ def directed():
                 for rs2 in (list(longer), np.array([i in longer for i in range(len(lens))]), slice(min(longer), max(longer) + 1) if longer == list(range(min(longer), max(longer) + 1)) else list(longer[::-1])):
                     for j in (short_, short_ + 1, -short_ - 1, min(lens[i] for i in longer) - 1):
                         yield dict(mk_case(lens, first[0], first[1], first[2], recv), then=[rs2, j, True])
+    # three steps: a column of all rows, then a selection derived from the same object (a column slice, a row selection, both), then a column of that
+    # selection which only some of ITS rows have (its shortest row differs from the first object's)
+    for lens in ([2, 1, 3], [3, 2, 4, 2], [4, 1, 5, 5], [1, 3, 3]):
+        for recv in ("fresh", "lazycols+2", "lazycols-1", "lazychain", "lazyrows", "lazytail-parent-used"):
+            for first in ((slice(None), 0, True), (slice(None), -1, True), (Ellipsis, 0, True)):
+                for rsd, csd in ((slice(None), slice(1, None)), (slice(None), slice(None, -1)), (slice(None), slice(0, None, 2)), (slice(None), slice(None, None, -1)),
+                                 (slice(1, None), slice(None)), (list(range(len(lens)))[::-1], slice(1, None)), (slice(None), slice(2, None))):
+                    for j in (0, 1, -1, -2, min(lens) - 1, min(lens)):
+                        yield dict(mk_case(lens, first[0], first[1], first[2], recv), derive=[rsd, csd, True, slice(None), j, True])
+                    yield dict(mk_case(lens, first[0], first[1], first[2], recv), derive=[rsd, csd, True, [0, -1], slice(None, 1), True])
     # negative column numbers carried by a narrow numpy integer type, on rows longer than that type can count (row length + column leaves the type)
     lens = [3, 300, 40000, 130, 2]
     for rs in (1, 2, 3, [1, 2], [3, 1, 2], slice(1, 4), np.array([2, 1])):
@@ -854,16 +898,26 @@ def random_case(rng, tier):
             rs2 = int(rs2)
         u2 = rng.random()
         then = [rs2, None, False] if u2 < 0.3 else ([rs2, rng.randint(-maxl - 1, maxl) if (lens and max(lens)) else 0, True] if u2 < 0.65 else [rs2, gen.gen_slice(rng, max(lens) if lens else 0, far=True), True])
+    derive = None
+    if rng.random() < 0.25:
+        rsd = random_selector(rng, n, allow_oob=False) if rng.random() < 0.5 else slice(None)
+        if not (isinstance(rsd, np.ndarray) and rsd.ndim == 0) and not model.is_int(rsd):
+            csd = gen.gen_slice(rng, maxl, far=True) if rng.random() < 0.8 else slice(None)
+            rs3 = slice(None) if rng.random() < 0.6 else random_selector(rng, max(1, n), allow_oob=False)
+            if isinstance(rs3, np.ndarray) and rs3.ndim == 0:
+                rs3 = int(rs3)
+            u3 = rng.random()
+            derive = [rsd, csd, True] + ([rs3, rng.randint(-maxl - 1, maxl), True] if u3 < 0.6 else [rs3, gen.gen_slice(rng, maxl, far=True), True] if u3 < 0.85 else [rs3, None, False])
     if ck == "none":
-        return dict(mk_case(lens, rs, recv=recv), then=then)
+        return dict(mk_case(lens, rs, recv=recv), then=then, derive=derive)
     pad = rng.choice([1, 2, 3]) if rng.random() < 0.08 else 0
     if ck == "int":
         c = rng.randint(-maxl - 1, maxl)
         if rng.random() < 0.03:
             c = rng.choice([2 ** 32 + c, -2 ** 32 + c])
             return dict(mk_case(lens, rs, rng.choice([c, np.int64(c)]), True, recv), ellpad=pad)
-        return dict(mk_case(lens, rs, gen.np_int(rng, c), True, recv), ellpad=pad, then=then)
-    return dict(mk_case(lens, rs, gen.gen_slice(rng, maxl, far=True), True, recv), ellpad=pad, then=then)
+        return dict(mk_case(lens, rs, gen.np_int(rng, c), True, recv), ellpad=pad, then=then, derive=derive)
+    return dict(mk_case(lens, rs, gen.gen_slice(rng, maxl, far=True), True, recv), ellpad=pad, then=then, derive=derive)
 
 
 def classify(case, res):
